@@ -553,3 +553,171 @@ func checkResolveRef(e *Engine, r *Report, pkg string) {
 			return ok && !foundIs(ret, false)
 		}}), strAssert)
 }
+
+// ---- built-in balloon types: added exactly when missing ------------------------------------------------
+// For each store `defs = append(..)` in fillBuiltinBalloonDefs that adds a freshly allocated BalloonDef R: let X be
+// the looked-up definition R stands in for (the other input of the phi R flows into, or the other stores to the cell R
+// is stored in). Then from every test of X against nil: with X nil every successful return has passed the store,
+// and with X non-nil none has.
+func checkBuiltinDefsAdded(e *Engine, r *Report, fb *ssa.Function, fDefs *types.Var) {
+	const rule = "selection order"
+	type site struct {
+		store *ssa.Store
+		fresh ssa.Value
+		front bool
+	}
+	var sites []site
+	AllInstrs(fb, func(in ssa.Instruction) {
+		st, ok := in.(*ssa.Store)
+		if !ok || fieldOfAddr(st.Addr) != fDefs {
+			return
+		}
+		call, ok := st.Val.(*ssa.Call)
+		if !ok {
+			return
+		}
+		if b, ok := call.Common().Value.(*ssa.Builtin); !ok || b.Name() != "append" {
+			return
+		}
+		for i, a := range call.Common().Args {
+			for _, el := range sliceLiteralElems(a) {
+				if al, ok := unspill(el).(*ssa.Alloc); ok && al.Heap {
+					sites = append(sites, site{st, al, i == 0})
+				}
+			}
+		}
+	})
+	if len(sites) < 2 {
+		r.Check("R5:builtin-types-added-when-missing", rule, "fillBuiltinBalloonDefs adds the implicit reserved and default balloon types to the list", e.Pos(fb.Pos()), fb, false,
+			fmt.Sprintf("%d additions of a fresh BalloonDef found, expected the reserved and the default type", len(sites)), true)
+		return
+	}
+	for _, s := range sites {
+		s := s
+		where := map[bool]string{true: "front", false: "end"}[s.front]
+		key := "R5:builtin-type-added-iff-missing@" + where
+		what := "fillBuiltinBalloonDefs adds the implicit balloon type at the " + where + " of the list exactly when the configured list has none of that name"
+		// tests of the value the fresh definition replaces
+		isX := func(v ssa.Value) bool {
+			v0 := v
+			if v0 == s.fresh {
+				return false
+			}
+			// phi partner
+			if v0.Referrers() != nil {
+				for _, ref := range *v0.Referrers() {
+					if phi, ok := ref.(*ssa.Phi); ok {
+						for _, ed := range phi.Edges {
+							if ed == s.fresh {
+								return true
+							}
+						}
+					}
+				}
+			}
+			// cell partner: v is a load of a cell the fresh definition is stored to
+			if u, ok := v0.(*ssa.UnOp); ok && u.Op == token.MUL {
+				if c, ok := u.X.(*ssa.Alloc); ok {
+					for _, st := range cellStores(c) {
+						if st.Val == s.fresh {
+							return true
+						}
+					}
+				}
+			}
+			return false
+		}
+		var tests []*ssa.BinOp
+		AllInstrs(fb, func(in ssa.Instruction) {
+			b, ok := in.(*ssa.BinOp)
+			if !ok || (b.Op != token.EQL && b.Op != token.NEQ) {
+				return
+			}
+			if c, ok := b.Y.(*ssa.Const); ok && c.IsNil() && isX(b.X) {
+				tests = append(tests, b)
+			}
+		})
+		if len(tests) == 0 {
+			r.Check(key, rule, what, e.InstrPos(s.store), fb, false, "the addition is not conditional on the looked-up definition being nil", true)
+			continue
+		}
+		good, w := true, ""
+		for _, tst := range tests {
+			tst := tst
+			as := func(isNil bool) Assumption {
+				return func(cond ssa.Value) (bool, bool) {
+					if cond == ssa.Value(tst) {
+						return true, (tst.Op == token.EQL) == isNil
+					}
+					if u, ok := cond.(*ssa.UnOp); ok && u.Op == token.NOT && u.X == ssa.Value(tst) {
+						return true, (tst.Op == token.EQL) != isNil
+					}
+					return false, false
+				}
+			}
+			isStore := func(in ssa.Instruction) bool { return in == ssa.Instruction(s.store) }
+			if p := FindPath(PathQuery{Fn: fb, From: tst, Assume: as(true), Block: isStore, Target: func(in ssa.Instruction) bool {
+				ret, ok := in.(*ssa.Return)
+				return ok && e.maySucceed(ret)
+			}}); p != nil {
+				good, w = false, "missing type not added: "+e.pathString(p)
+			}
+			if p := FindPath(PathQuery{Fn: fb, From: tst, Assume: as(false), Target: isStore}); p != nil {
+				good, w = false, "type added although configured: "+e.pathString(p)
+			}
+		}
+		r.Check(key, rule, what, e.InstrPos(s.store), fb, good, w, true)
+	}
+}
+
+// validateConfig refuses a balloon type whose minimum exceeds its (set) maximum — the clamp rules of resizeBalloon and
+// the instance limits rely on min <= max.
+func checkLimitRangeValidated(e *Engine, r *Report, vc *ssa.Function, name string, fMin, fMax *types.Var) {
+	key := "R2:config-range-validated#" + name
+	what := "validateConfig refuses a balloon type whose Min" + name + " exceeds its Max" + name + " when the maximum is set"
+	isMin := func(v ssa.Value) bool { g, _ := loadedField(unspill(v)); return g != nil && g == fMin }
+	isMax := func(v ssa.Value) bool { g, _ := loadedField(unspill(v)); return g != nil && g == fMax }
+	var cmps []*ssa.BinOp
+	AllInstrs(vc, func(in ssa.Instruction) {
+		if b, ok := in.(*ssa.BinOp); ok {
+			if _, y, _, ok := cmpOriented(b, isMin); ok && isMax(y) {
+				cmps = append(cmps, b)
+			}
+		}
+	})
+	if len(cmps) == 0 {
+		r.Check(key, "R2 limits", what, e.Pos(vc.Pos()), vc, false, "the two limits are never compared", true)
+		return
+	}
+	assume := func(cond ssa.Value) (bool, bool) {
+		if _, y, op, ok := cmpOriented(cond, isMin); ok && isMax(y) { // min op max, with min > max
+			switch op {
+			case token.GTR, token.GEQ, token.NEQ:
+				return true, true
+			default:
+				return true, false
+			}
+		}
+		if _, y, op, ok := cmpOriented(cond, isMax); ok {
+			if k, isK := constIntVal(y); isK && k == 0 { // the maximum is set: max > 0
+				switch op {
+				case token.GTR, token.NEQ:
+					return true, true
+				case token.EQL, token.LEQ, token.LSS:
+					return true, false
+				}
+			}
+		}
+		return false, false
+	}
+	good, w := true, ""
+	for _, c := range cmps {
+		if p := FindPath(PathQuery{Fn: vc, From: c, Assume: assume, Target: func(in ssa.Instruction) bool {
+			ret, ok := in.(*ssa.Return)
+			return ok && e.maySucceed(ret)
+		}}); p != nil {
+			good, w = false, "accepted: "+e.pathString(p)
+		}
+	}
+	r.Check(key, "R2 limits", what, e.InstrPos(cmps[0]), vc, good, w, true)
+}
